@@ -158,3 +158,42 @@ def has_point_x(x):
 
 INF._symbolic_only = True
 GPT._symbolic_only = True
+
+
+def _sp_b64text(ip, data):
+    from pyvc.builtins_model import b64_encode_sv
+    return SV(b64_encode_sv(ip, data), 'str')
+
+
+@spec(special=_sp_b64text)
+def b64text(data):
+    """base64 text of data, without line break"""
+    import binascii
+    return binascii.b2a_base64(data).strip().decode("ascii")
+
+
+def _sp_b64dec(ip, text):
+    import z3 as _z3
+    from pyvc.builtins_model import _b64_fns
+    return SV(_b64_fns()[1](lift(text).e), 'bytes')
+
+
+@spec(special=_sp_b64dec)
+def b64dec(text):
+    import binascii
+    return binascii.a2b_base64(text)
+
+
+def _sp_b64ok(ip, text):
+    from pyvc.builtins_model import _b64_fns
+    return SV(_b64_fns()[2](lift(text).e), 'bool')
+
+
+@spec(special=_sp_b64ok)
+def b64_ok(text):
+    import binascii
+    try:
+        binascii.a2b_base64(text)
+        return True
+    except ValueError:
+        return False
